@@ -117,6 +117,7 @@ def run(ctx):
     prefix_rules(ctx, 'C16.D4', [gx], only_pathlike=False)
     children_table(ctx, gx)
     children_once(ctx, gx)
+    answer_caches_follow_exports(ctx, writers)
     ctx.floor('C16.D1', 3)
     ctx.floor('C16.D2', 6)
     ctx.floor('C16.D3', 2)
@@ -202,6 +203,68 @@ def is_method_call(x, name):
     return kind(x) == 'call' and (
         (kind(x[2]) == 'attr' and x[2][2] == name) or
         (kind(x[2]) == 'bound' and str(x[2][2]).endswith('.' + name)))
+
+
+def answer_caches_follow_exports(ctx, writers):
+    """What a peer sees (Introspect, GetManagedObjects, UnknownObject) must
+    follow the export table at every moment.  State that the call handler
+    writes while answering - a cache of generated answers - is derived from
+    the export table; every method that changes the table must then reset it
+    WHOLESALE on every path (an answer for one path depends on the exports
+    beneath it: dropping the entry of the changed path alone leaves its
+    ancestors' answers stale)."""
+    prog = ctx.prog
+    cls = prog.cls(H)
+    hm = prog.lookup_method(cls, 'handleMethodCallMessage')
+    selft = ('param', 'self')
+    caches = set()
+    for n in ast.walk(hm.node):
+        tgt = None
+        if isinstance(n, ast.Subscript) and isinstance(n.ctx, ast.Store):
+            tgt = n.value
+        elif isinstance(n, ast.Attribute) and isinstance(n.ctx, ast.Store):
+            tgt = n
+        elif isinstance(n, ast.Call) and isinstance(n.func, ast.Attribute) \
+                and n.func.attr in ('setdefault', 'update', 'append', 'add'):
+            tgt = n.func.value
+        if isinstance(tgt, ast.Attribute) and \
+                isinstance(tgt.value, ast.Name) and tgt.value.id == 'self' \
+                and tgt.attr != 'exports':
+            caches.add(tgt.attr)
+    ctx.extra['answer_caches'] = sorted(caches)
+    for attr in sorted(caches):
+        for q in sorted(writers):
+            if q.endswith('.__init__'):
+                continue
+            fi = prog.func(q)
+            for p in Interp(prog, exc_edges=False).run(fi):
+                if p.outcome == 'raise':
+                    continue
+                changed = any(
+                    (ev[0] in ('setsub', 'delsub') and
+                     ev[1] == ('attr', selft, 'exports')) or
+                    (ev[0] == 'call' and kind(ev[1][2]) == 'attr' and
+                     ev[1][2][1] == ('attr', selft, 'exports') and
+                     ev[1][2][2] in ('pop', 'clear', 'update', 'setdefault',
+                                     'popitem'))
+                    for ev in iter_events(p.trace))
+                if not changed:
+                    continue
+                reset = any(
+                    (ev[0] == 'call' and kind(ev[1][2]) == 'attr' and
+                     ev[1][2][1] == ('attr', selft, attr) and
+                     ev[1][2][2] == 'clear' and not ev[1][3]) or
+                    (ev[0] == 'setattr' and ev[1] == selft and ev[2] == attr
+                     and (ev[3] in (('dict', ()), ('list', ()), NONE) or
+                          (kind(ev[3]) == 'call' and ev[3][1] in (
+                              'dict', 'list', 'set') and not ev[3][3])))
+                    for ev in iter_events(p.trace))
+                ctx.ob('C16.D1', q, 'answer-cache-reset:%s' % attr, reset,
+                       'the call handler keeps answers in self.%s; this '
+                       'method changes the export table without resetting '
+                       'that cache wholesale, so an ancestor path keeps '
+                       'answering with children (or XML instead of '
+                       'UnknownObject) that are no longer exported' % attr)
 
 
 def strip(t):
